@@ -175,6 +175,24 @@ impl AutosarModel {
         }
         .wrap();
 
+        // the new data may not define an existing path as a different kind of element.
+        // This must be known before the new data is merged, because merging cannot be undone
+        {
+            let data = self.0.read();
+            for (key, value) in &parser.identifiables {
+                if let (Some(existing_element), Some(new_element)) =
+                    (data.identifiables.get(key).and_then(WeakElement::upgrade), value.upgrade())
+                {
+                    if existing_element.element_name() != new_element.element_name() {
+                        return Err(AutosarDataError::OverlappingDataError {
+                            filename,
+                            path: existing_element.xml_path(),
+                        });
+                    }
+                }
+            }
+        }
+
         if self.0.read().files.is_empty() {
             root_element.set_parent(ElementOrModel::Model(self.downgrade()));
             root_element.0.write().file_membership.insert(arxml_file.downgrade());
